@@ -27,6 +27,7 @@ MODULES = {
     "C03": ("mcx.checks.c03", {}),
     "C04": ("mcx.checks.c04", {}),
     "C06": ("mcx.checks.c06", {}),
+    "C07": ("mcx.checks.c07", {}),
     "C08": ("mcx.checks.c08", {}),
     "C09": ("mcx.checks.c09", {}),
     "C10": ("mcx.checks.c10", {}),
